@@ -71,6 +71,8 @@ pub enum Fault {
     Blackhole { at: usize },
     /// Shutdown never completes.
     ShutdownHangs,
+    /// Shutdown completes after this many milliseconds.
+    ShutdownDelay { ms: u64 },
 }
 
 #[derive(Clone, Debug)]
@@ -105,6 +107,7 @@ struct State {
     /// (bytes, ms): once this many bytes have been delivered the reader gets nothing for this long
     stall_at: Option<(usize, u64)>,
     stall_until: Option<Instant>,
+    shutdown_at: Option<Instant>,
 }
 
 #[derive(Clone)]
@@ -139,6 +142,7 @@ pub fn pipe(p: PipeParams) -> (PipeWriter, PipeReader, PipeHandle) {
         reader_frozen: false,
         stall_at: None,
         stall_until: None,
+        shutdown_at: None,
     };
     let h = PipeHandle(Arc::new(Mutex::new(st)));
     (PipeWriter(h.clone()), PipeReader { h: h.clone(), sleep: None }, h)
@@ -306,12 +310,30 @@ impl AsyncWrite for PipeWriter {
         Poll::Ready(Ok(()))
     }
 
-    fn poll_shutdown(self: Pin<&mut Self>, _cx: &mut Context<'_>) -> Poll<io::Result<()>> {
+    fn poll_shutdown(self: Pin<&mut Self>, cx: &mut Context<'_>) -> Poll<io::Result<()>> {
         let mut s = self.0.0.lock().unwrap();
-        s.shutdown_seen += 1;
-        s.log.push(Ev::Shutdown { t: Instant::now() });
+        if let Some(at) = s.shutdown_at {
+            if Instant::now() < at {
+                return Poll::Pending;
+            }
+        } else {
+            s.shutdown_seen += 1;
+            s.log.push(Ev::Shutdown { t: Instant::now() });
+        }
         if s.faults.iter().any(|f| matches!(f, Fault::ShutdownHangs)) {
             return Poll::Pending;
+        }
+        if s.shutdown_at.is_none() {
+            if let Some(ms) = s.faults.iter().find_map(|f| if let Fault::ShutdownDelay { ms } = f { Some(*ms) } else { None }) {
+                let at = Instant::now() + std::time::Duration::from_millis(ms);
+                s.shutdown_at = Some(at);
+                let waker = cx.waker().clone();
+                tokio::spawn(async move {
+                    tokio::time::sleep_until(at).await;
+                    waker.wake();
+                });
+                return Poll::Pending;
+            }
         }
         s.writer_closed = true;
         if let Some(w) = s.read_waker.take() {
